@@ -89,34 +89,34 @@ theorem getRecord_of_live {w : World} {a : W} (h : Rel w a) {id : String} {e : E
 
 /-! ### preservation -/
 
-theorem rel_put {nc : NodeCfg} {w : World} {a : W} (h : Rel w a) (id : String) (data plain : Bytes)
+theorem rel_put {nc : NodeCfg} (φ : Faults) {w : World} {a : W} (h : Rel w a) (id : String) (data plain : Bytes)
     (ttl : Int) (nonce : Bytes) (enc : Bool) (dl : Int)
     (hdl : dl = w.now + effTtl nc.store ttl * nsPerSec) :
-    Rel { w with sys := sysPut nc.store w.sys w.now id data plain ttl nonce enc }
+    Rel { w with sys := sysPutF nc.store φ w.sys w.now id data plain ttl nonce enc }
         { a with s := ⟨id, plain, data, dl⟩ :: a.s } := by
   refine ⟨h.now_eq, uniq_aset h.uniq _ _, ?_, ?_⟩
   · intro id' r hr
     by_cases hid : id = id'
     · subst hid
-      simp only [sysPut, put, aget_aset_self] at hr
+      simp only [sysPutF, aget_aset_self] at hr
       cases hr
-      exact ⟨⟨id, plain, data, dl⟩, by simp [last], rfl, rfl, by simp [mkRec, hdl]⟩
-    · simp only [sysPut, put, aget_aset_ne _ _ hid] at hr
+      exact ⟨⟨id, plain, data, dl⟩, by simp [last], rfl, rfl, by simp [mkRecP, mkRec, hdl]⟩
+    · simp only [sysPutF, aget_aset_ne _ _ hid] at hr
       obtain ⟨e, he, h1⟩ := h.sound id' r hr
       exact ⟨e, by simp [last, hid, he], h1⟩
   · intro id' e he hn
     by_cases hid : id = id'
     · subst hid
-      simp [sysPut, put, aget_aset_self] at hn
-    · simp only [sysPut, put, aget_aset_ne _ _ hid] at hn
+      simp [sysPutF, aget_aset_self] at hn
+    · simp only [sysPutF, aget_aset_ne _ _ hid] at hn
       simp only [last, hid, if_false] at he
       exact h.complete id' e he hn
 
-theorem rel_sweep {cfg : Cfg} {w : World} {a : W} (h : Rel w a) :
-    Rel { w with sys := (sysSweep cfg w.sys w.now).1 } a := by
+theorem rel_sweep {cfg : Cfg} (φ : Faults) {w : World} {a : W} (h : Rel w a) :
+    Rel { w with sys := (sysSweepF cfg φ w.sys w.now).1 } a := by
   refine ⟨h.now_eq, uniq_filter h.uniq _, ?_, ?_⟩
   · intro id r hr
-    simp only [sysSweep, sweep] at hr
+    simp only [sysSweepF, sweep] at hr
     rw [aget_filter h.uniq] at hr
     cases hg : aget w.sys.recs id with
     | none => simp [hg] at hr
@@ -126,7 +126,7 @@ theorem rel_sweep {cfg : Cfg} {w : World} {a : W} (h : Rel w a) :
       · cases hr; exact h.sound id _ hg
       · cases hr
   · intro id e he hn
-    simp only [sysSweep, sweep] at hn
+    simp only [sysSweepF, sweep] at hn
     rw [aget_filter h.uniq] at hn
     cases hg : aget w.sys.recs id with
     | none => exact h.complete id e he hg
@@ -150,28 +150,31 @@ theorem rel_advance {w : World} {a : W} (h : Rel w a) (d : Nat) :
   show e.deadline ≤ w.now + d
   omega
 
-/-- one step of the model and the specification keeps them related -/
-theorem rel_step {nc : NodeCfg} (hs : SaneCfg nc) {w : World} {a : W} (h : Rel w a) (op : Op) :
-    Rel (step nc w op).1 (EphVerif.StoreSpec.step (paramsOf nc) a op) := by
+/-- one step of the model (under any I/O errors) and the specification keeps them related -/
+theorem rel_stepF {nc : NodeCfg} (hs : SaneCfg nc) (φ : Faults) {w : World} {a : W} (h : Rel w a) (op : Op) :
+    Rel (stepF nc φ w op).1 (EphVerif.StoreSpec.step (paramsOf nc) a op) := by
   cases op with
   | store id data ttl nonce enc =>
-    simp only [step, EphVerif.StoreSpec.step]
-    exact rel_put h id data data ttl nonce enc _ (by rw [← h.now_eq, effTtl_eq]; rfl)
+    simp only [stepF, EphVerif.StoreSpec.step]
+    exact rel_put φ h id data data ttl nonce enc _ (by rw [← h.now_eq, effTtl_eq]; rfl)
   | nstore id plain cipher nonce ttl =>
-    simp only [step, EphVerif.StoreSpec.step, nodeStore]
-    exact rel_put h id cipher plain (nodeTtl nc ttl) nonce true _ (by rw [← h.now_eq, nodeTtl_eq nc hs]; rfl)
+    simp only [stepF, EphVerif.StoreSpec.step, nodeStoreF]
+    exact rel_put φ h id cipher plain (nodeTtl nc ttl) nonce true _ (by rw [← h.now_eq, nodeTtl_eq nc hs]; rfl)
   | lookup id => exact h
   | record id => exact h
   | fetch id => exact h
   | request id => exact h
   | list => exact h
-  | sweep => exact rel_sweep h
+  | sweep => exact rel_sweep φ h
   | tick =>
-    simp only [step, EphVerif.StoreSpec.step, nodeTick]
+    simp only [stepF, EphVerif.StoreSpec.step, nodeTickF]
     split
-    · exact ⟨h.now_eq, (rel_sweep (cfg := nc.store) h).uniq, (rel_sweep (cfg := nc.store) h).sound,
-        (rel_sweep (cfg := nc.store) h).complete⟩
+    · exact ⟨h.now_eq, (rel_sweep (cfg := nc.store) φ h).uniq, (rel_sweep (cfg := nc.store) φ h).sound,
+        (rel_sweep (cfg := nc.store) φ h).complete⟩
     · exact h
   | advance d => exact rel_advance h d
+
+theorem rel_step {nc : NodeCfg} (hs : SaneCfg nc) {w : World} {a : W} (h : Rel w a) (op : Op) :
+    Rel (step nc w op).1 (EphVerif.StoreSpec.step (paramsOf nc) a op) := rel_stepF hs [] h op
 
 end EphVerif.ChunkStore
